@@ -7,6 +7,8 @@ import GtModel.Model.Assign
 import GtModel.Model.Bounded
 import GtModel.Model.Search
 import GtModel.Model.Heap
+import GtModel.Model.Render
+import GtModel.Proofs.RenderCheck
 import GtModel.Model.BuilderDriver
 import GtModel.Model.DispatchDriver
 import GtModel.Model.Expr
@@ -17,6 +19,18 @@ namespace Driver
 
 def echo : Handler := fun j => pure j
 
+/-- stream `render`: the model's rendering plus the executable well-formedness check of the script -/
+def renderChecked : Handler := fun j => do
+  let r ← Render.renderHandler j
+  let o ← optsOfJson j
+  let f ← docOfJson (← j.getObjVal? "f")
+  let t ← docOfJson (← j.getObjVal? "t")
+  let orc ← oracleOfJson (← j.getObjVal? "oracle")
+  let ft := build o f
+  let tt := build o t
+  let ok := Render.scriptOKB ft tt (edits o orc [] [] ft tt) && Render.litOK ft && Render.litOK tt
+  pure (r.setObjVal! "wf" (Json.bool ok))
+
 def table : List (String × Handler) := [
   ("echo", echo),
   ("range", rangeHandler),
@@ -26,6 +40,7 @@ def table : List (String × Handler) := [
   ("assign", Assign.assignHandler),
   ("bounded", GtModel.Bounded.boundedHandler),
   ("heap", Heap.heapHandler),
+  ("render", renderChecked),
   ("build", GtModel.Builder.buildHandler),
   ("dispatch", Dispatch.dispatchHandler),
   ("dispatch_all", Dispatch.dispatchAllHandler),
